@@ -809,8 +809,6 @@ void op_NEW_HANDLER(World& w, const Op& op)
    w.record_node("Handler::exception", ex, Category_code::EH_parameter, false)
       .exp("name", N(n))
       .exp("type", N(t))
-      .exp("home_region", N(ehr))
-      .exp("lexical_region", N(ehr))
       .exp("initializer", Val::absent())
       .exp("master", N(ex))
       .exp("decl_set", Val::list({N(ex)}))
